@@ -1313,7 +1313,13 @@ pub fn run_c09p(o: &crate::Opts) {
                 let mut a = vec!["debug", "d.asm"];
                 a.extend_from_slice(&common);
                 let mut all = script.as_bytes().to_vec();
-                all.push(delim as u8);
+                // '\r' stands for a CR LF line ending (the line break is the LF; the CR is blank
+                // space at the end of the command)
+                if delim == '\r' {
+                    all.extend_from_slice(b"\r\n");
+                } else {
+                    all.push(delim as u8);
+                }
                 all.extend_from_slice(inp);
                 spawn(dir, &a, &all, 15000)
             }
@@ -1345,6 +1351,7 @@ pub fn run_c09p(o: &crate::Opts) {
                 let via = match f.get(6) {
                     Some(&"S3b") => Some(';'),
                     Some(&"S0a") => Some('\n'),
+                    Some(&"S0d") => Some('\r'),
                     _ => None,
                 };
                 Some(one(&dir, &src, &script, &inp, stack, minimal, via))
@@ -1371,9 +1378,10 @@ pub fn run_c09p(o: &crate::Opts) {
         let n = p.words.len();
         let mut c = crate::dbg::decorate(&mut rng, &p, "D09", vec![], 0);
         // one pair in three: script on standard input, the program's input right behind it
-        let via = match rng.below(6) {
+        let via = match rng.below(8) {
             0 => Some(';'),
             1 => Some('\n'),
+            2 => Some('\r'),
             _ => None,
         };
         // half of those: the script ends in `continue` instead of `quit` — the program then runs
@@ -1402,7 +1410,7 @@ pub fn run_c09p(o: &crate::Opts) {
             lines.push("quit".into());
         }
         c.cmds = vec![];
-        let script = lines.join(if rng.chance(1, 2) { ";" } else { "\n" });
+        let script = lines.join(if via == Some('\r') { "\r\n" } else if rng.chance(1, 2) { ";" } else { "\n" });
         // REG prints a table whose shape depends on the mode but not on the debugger; fine in both
         let minimal = rng.chance(1, 2);
         if minimal {
@@ -1424,7 +1432,7 @@ pub fn run_c09p(o: &crate::Opts) {
         }
         sink.put(
             &format!("Z09 {} {} {} {} {} {}", p.stack as u8, minimal as u8, hex(src.as_bytes()), hex(script.as_bytes()), hex(&inp),
-                match via { Some(';') => "S3b", Some(_) => "S0a", None => "A" }),
+                match via { Some(';') => "S3b", Some('\r') => "S0d", Some(_) => "S0a", None => "A" }),
             &obs,
         );
     }
